@@ -7,7 +7,7 @@ verus! {
 
 //@@ include common.rs
 //@@ trusted the SASL transport is a stand-in: `send` appends to a ghost trace of SASL frames or fails; `next` yields an arbitrary frame, an error or end-of-stream (the peer is unconstrained)
-//@@ trusted the mechanism (`Sasl: SaslAcceptor`) is a stand-in returning an arbitrary challenge or outcome; negotiate_sasl_header / negotiate_amqp_with_framed are stand-ins: the latter can only be reached with the codec pair taken out of the SASL transport, whose ghost history it copies into the handle it returns
+//@@ trusted the mechanism (`Sasl: SaslAcceptor`) is a stand-in returning an arbitrary challenge or outcome; negotiate_sasl_header / negotiate_amqp_with_framed are stand-ins: the latter copies the ghost SASL history of the halves it is given into the handle it returns
 //@@ trusted leaf stand-ins: SaslInit, SaslResponse, SaslChallenge, SaslMechanisms, Binary, framed codec halves opaque; built as with feature acceptor
 
 macro_rules! opaque {
@@ -17,7 +17,7 @@ macro_rules! opaque {
         impl Clone for $n { #[verifier::external_body] fn clone(&self) -> (r: Self) ensures r == *self { unimplemented!() } }
     )* } }
 }
-opaque!(SaslInit, SaslResponse, SaslChallenge, SaslMechanisms, Binary, FramedW, FramedR, TransportError);
+opaque!(SaslInit, SaslResponse, SaslChallenge, SaslMechanisms, Binary, TransportError);
 
 //@@ type file=fe2o3-amqp-types/src/sasl/mod.rs kind=enum name=SaslCode clone keeprepr
 //@@ end
@@ -35,7 +35,32 @@ impl From<TransportError> for OpenError { #[verifier::external_body] fn from(e: 
 pub fn eof_error() -> (r: OpenError) { unimplemented!() }
 
 pub struct SaslTransport { pub sent: Ghost<Seq<sasl::Frame>> }
-pub struct Codecs { pub fw: FramedW, pub fr: FramedR, pub history: Ghost<Seq<sasl::Frame>> }
+//@@ trusted tokio_util's FramedWrite / FramedRead halves are stand-ins (R9): a half remembers the SASL exchange it came out of (`history`) and, on the read side, the octets already READ from the socket but not yet decoded (`unread`: whatever the peer pipelined behind its last SASL frame -- its AMQP protocol header, its Open) next to what was received there (`received`). map_encoder / map_decoder swap the codec and keep the buffers (tokio_util: "maps the codec while preserving the read buffer"); into_inner hands out the bare I/O half WITHOUT the buffer; FramedRead::new / FramedWrite::new start with an empty buffer
+pub struct LengthDelimited {}
+pub struct ProtocolHeaderCodec {}
+impl ProtocolHeaderCodec { pub fn new() -> (r: Self) { ProtocolHeaderCodec {} } }
+pub struct IoHalf { pub history: Ghost<Seq<sasl::Frame>>, pub received: Ghost<Seq<u8>> }
+pub struct FramedW { pub history: Ghost<Seq<sasl::Frame>> }
+pub struct FramedR { pub history: Ghost<Seq<sasl::Frame>>, pub received: Ghost<Seq<u8>>, pub unread: Ghost<Seq<u8>> }
+pub struct FramedWrite {}
+pub struct FramedRead {}
+impl FramedWrite { #[verifier::external_body] pub fn new(io: IoHalf, c: ProtocolHeaderCodec) -> (r: FramedW) ensures r.history == io.history { unimplemented!() } }
+impl FramedRead {
+    #[verifier::external_body]
+    pub fn new(io: IoHalf, c: ProtocolHeaderCodec) -> (r: FramedR) ensures r.history == io.history, r.received == io.received, r.unread@ == Seq::<u8>::empty() { unimplemented!() }
+}
+impl FramedW {
+    #[verifier::external_body]
+    pub fn map_encoder<F: FnOnce(LengthDelimited) -> ProtocolHeaderCodec>(self, f: F) -> (r: FramedW) ensures r.history == self.history { unimplemented!() }
+    #[verifier::external_body]
+    pub fn into_inner(self) -> (r: IoHalf) ensures r.history == self.history { unimplemented!() }
+}
+impl FramedR {
+    #[verifier::external_body]
+    pub fn map_decoder<F: FnOnce(LengthDelimited) -> ProtocolHeaderCodec>(self, f: F) -> (r: FramedR) ensures r.history == self.history, r.received == self.received, r.unread == self.unread { unimplemented!() }
+    #[verifier::external_body]
+    pub fn into_inner(self) -> (r: IoHalf) ensures r.history == self.history, r.received == self.received { unimplemented!() }
+}
 impl SaslTransport {
     #[verifier::external_body]
     pub fn negotiate_sasl_header(fw: FramedW, fr: FramedR) -> (r: Result<SaslTransport, TransportError>)
@@ -50,7 +75,7 @@ impl SaslTransport {
         ensures final(self).sent == old(self).sent,
     { unimplemented!() }
     #[verifier::external_body]
-    pub fn into_framed_codec(self) -> (r: Codecs) ensures r.history@ == self.sent@ { unimplemented!() }
+    pub fn into_framed_codec(self) -> (r: (FramedW, FramedR)) ensures r.0.history@ == self.sent@, r.1.history@ == self.sent@, r.1.unread == r.1.received { unimplemented!() }
 }
 pub struct ListenerConnectionHandle { pub sasl_history: Ghost<Seq<sasl::Frame>> }
 pub struct SaslS { pub g: Ghost<int> }
@@ -66,8 +91,9 @@ impl SaslS {
 pub struct ConnectionAcceptor { pub sasl_acceptor: SaslS }
 impl ConnectionAcceptor {
     #[verifier::external_body]
-    pub fn negotiate_amqp_with_codecs(&self, c: Codecs) -> (r: Result<ListenerConnectionHandle, OpenError>)
-        ensures r is Ok ==> r->Ok_0.sasl_history@ == c.history@,
+    pub fn negotiate_amqp_with_framed(&self, framed_write: FramedW, framed_read: FramedR) -> (r: Result<ListenerConnectionHandle, OpenError>)
+        requires framed_read.unread@ == framed_read.received@,        // [C06.listener.pipelined-octets-survive-the-sasl-layer] incoming frames are decoded identically however the byte stream is split across reads: octets of the peer's AMQP header / Open that arrived in the same read as its last SASL frame are still in the read buffer when the AMQP exchange starts -- a half rebuilt from the bare socket has lost them, and the listener then waits for a header the peer has already sent
+        ensures r is Ok ==> r->Ok_0.sasl_history@ == framed_read.history@ && framed_write.history@ == framed_read.history@,
     { unimplemented!() }
 
 //@@ fn file=fe2o3-amqp/src/acceptor/connection.rs impl=`impl<Tls, Sasl> ConnectionAcceptor<Tls, Sasl> where Sasl: SaslAcceptor,` name=negotiate_sasl_with_framed
@@ -78,7 +104,8 @@ impl ConnectionAcceptor {
 //@@ param framed_read : FramedR
 //@@ subst `Transport::negotiate_sasl_header(framed_write, framed_read)` => `SaslTransport::negotiate_sasl_header(framed_write, framed_read)` rule=R9
 //@@ subst `transport.next().ok_or_else(|| { OpenError::Io(io::Error::new( io::ErrorKind::UnexpectedEof, "Expecting SASL frames", )) })??` => `(match (match transport.next() { Some(x) => x, None => return Err(eof_error()) }) { Ok(f) => f, Err(e) => return Err(OpenError::Transport(e)) })` rule=R24
-//@@ subst `let (framed_write, framed_read) = transport.into_framed_codec(); let framed_write = framed_write.map_encoder(|_v0| ProtocolHeaderCodec::new()); let framed_read = framed_read.map_decoder(|_v1| ProtocolHeaderCodec::new()); self.negotiate_amqp_with_framed(framed_write, framed_read)` => `let codecs = transport.into_framed_codec(); self.negotiate_amqp_with_codecs(codecs)` rule=R9
+//@@ subst `|_v0|` => `|_v0: LengthDelimited|` rule=optional-R5
+//@@ subst `|_v1|` => `|_v1: LengthDelimited|` rule=optional-R5
 //@@ spec
     ensures
         r is Ok ==> ({
